@@ -84,6 +84,10 @@ def checkPart : Rd Verdict := do
     s := some (specFail (base ++ "/spec/rows_tile" ++ sfx) s!"{showList (rowBlocks.map toString)}" feats)
   else if rows != 0 && !(tiles colsTotal (nonEmpty colBlocks) 0) then
     s := some (specFail (base ++ "/spec/cols_tile" ++ sfx) s!"{showList (colBlocks.map toString)}" feats)
+  else if rowsTotal == 0 && (if kind == 1 then cols / bC * bC else cols) != 0 && kind ≤ 1 &&
+          !(tiles (if kind == 1 then cols / bC * bC else cols) (nonEmpty colBlocks) 0) then
+    -- the property counts size 0 in its domain: a matrix without rows still has columns, and they must have owners
+    s := some (specFail (base ++ "/spec/cols_tile/zero_rows") s!"no rank owns the {cols} columns of a matrix without rows: {showList (colBlocks.map toString)}" feats)
   else
     for o in outs do
       if s.isSome then break
